@@ -34,12 +34,15 @@ def writeRawCore (o : Oracle) (h : H) (hist : Hist) (len : Nat) (data : List Byt
   let fw := fwrite o wh.2.2 1 len (data.take len)
   let count : Int := fw.1
   let wpos := wh.2.1.wpos + count / (blockwidth1 wh.2.1 : Nat)
-  let h' : H := { wh.2.1 with haveWritten := true, wpos := wpos, lastOp := .w,
+  -- since 230abc1: `count = whole_frames (psf, count, blockwidth)` — the byte count handed back is rounded down to whole frames and
+  -- `last_op` is cleared when it had to be rounded (the next call re-seeks)
+  let wf := Faults.wholeFrames count (blockwidth1 wh.2.1) .w
+  let h' : H := { wh.2.1 with haveWritten := true, wpos := wpos, lastOp := wf.2,
                               frames := if wpos > wh.2.1.frames then wpos else wh.2.1.frames,
                               dataend := if wpos > wh.2.1.frames then 0 else wh.2.1.dataend }
   if h'.autoHeader ∧ h'.container != .raw then
-    ⟨(Faults.writeHeader o h' fw.2 true).2.1, (Faults.writeHeader o h' fw.2 true).2.2, { ret := count, err := 0 }⟩
-  else ⟨h', fw.2, { ret := count, err := 0 }⟩
+    ⟨(Faults.writeHeader o h' fw.2 true).2.1, (Faults.writeHeader o h' fw.2 true).2.2, { ret := wf.1, err := 0 }⟩
+  else ⟨h', fw.2, { ret := wf.1, err := 0 }⟩
 
 def stepWriteRaw (o : Oracle) (h : H) (hist : Hist) (n : Int) (data : List Byte) : Res :=
   if n == 0 then ⟨h, hist, { ret := 0, err := h.error }⟩ else
@@ -56,8 +59,9 @@ def readRawCore (o : Oracle) (h : H) (hist : Hist) (len : Nat) : Res :=
   let room : Int := (sk.2.1.frames - sk.2.1.rpos) * (blockwidth1 sk.2.1 : Nat)
   let cr : Int × Int :=
     if count ≤ room then (count, sk.2.1.rpos + count / (blockwidth1 sk.2.1 : Nat)) else (room, sk.2.1.frames)
-  ⟨{ sk.2.1 with rpos := cr.2, lastOp := .r }, fr.2.2,
-   { ret := cr.1, err := 0, data := (fr.1.take cr.1.toNat).map (fun (b : Byte) => Int.ofNat b), hasData := true }⟩
+  let wf := Faults.wholeFrames cr.1 (blockwidth1 sk.2.1) .r      -- since 230abc1: whole frames only, `last_op` cleared when rounded
+  ⟨{ sk.2.1 with rpos := cr.2, lastOp := wf.2 }, fr.2.2,
+   { ret := wf.1, err := 0, data := (fr.1.take cr.1.toNat).map (fun (b : Byte) => Int.ofNat b), hasData := true }⟩
 
 def stepReadRaw (o : Oracle) (h : H) (hist : Hist) (n : Int) : Res :=
   if n == 0 then ⟨h, hist, { ret := 0, err := h.error }⟩ else
